@@ -139,7 +139,7 @@ func runSol(o *Out, rng *rand.Rand, thorough bool) {
 		}
 		bt.d.writeInst(o)
 		for i, s := range sols {
-			tag := fmt.Sprintf("c%d.%d", ci, i)
+			tag := fmt.Sprintf("c%d.%d.solver", ci, i)
 			o.Op(bt.b.observe(s, tag), "obs ok")
 		}
 		o.CountN("observations", len(sols))
